@@ -1,6 +1,8 @@
 package pogreb
 
 import (
+	"time"
+
 	"github.com/akrylysov/pogreb/fs"
 )
 
@@ -146,4 +148,43 @@ func vCheckDirSoft(db *DB, tag string) {
 		}
 		vExpect(live, tag+".dir.orphan-file")
 	}
+}
+
+// H_C15_bg: periodic background compaction (compaction interval set, sync
+// interval 0 / -1 by case): the worker arms a compaction ticker; when it fires
+// (at any scheduling point, once) the overwritten segment is reclaimed, nothing
+// leaks, the database stays usable and closes cleanly.
+func H_C15_bg() {
+	n := 2
+	vlen := 2
+	rec := 10 + 8 + vlen
+	opts := smallOpts(fs.Mem, 2, rec)
+	opts.BackgroundCompactionInterval = time.Second
+	if vCase()%2 == 1 {
+		opts.BackgroundSyncInterval = time.Duration(-1)
+	}
+	vFlag("tickBudget", 1)
+	dir := "c15bg"
+	db, err := Open(dir, opts)
+	vAssert(err == nil, "C15bg.open")
+	if err != nil {
+		return
+	}
+	r := newRef(n, 8)
+	applyOp(db, r, 0, 0, vlen, "C15bg.op")
+	applyOp(db, r, 0, 0, vlen, "C15bg.op")
+	applyOp(db, r, 0, 1, vlen, "C15bg.op")
+	applyOp(db, r, 0, 1, vlen, "C15bg.op")
+	vAssert(db.Close() == nil, "C15bg.close")
+	// the worker has run and exited: it armed exactly one ticker (the compaction one)
+	vAssert(vCounter("stub:time.NewTicker:model") == 1 || !vSymbolic(), "C15bg.compaction-ticker-armed")
+	plain := smallOpts(fs.Mem, 2, rec)
+	db2, err := Open(dir, plain)
+	vAssert(err == nil, "C15bg.reopen")
+	if err != nil {
+		return
+	}
+	checkReads(db2, r, "C15bg.after")
+	vCheckDir(db2, "C15bg.after")
+	vCover("C15bg.done")
 }
